@@ -10,7 +10,8 @@
 From Coq Require Import List NArith.
 From NV Require Import Base.LE Bgzf.Crc32 Bgzf.Crc32Proofs Bgzf.Frame Bgzf.FrameProofs
   Bgzf.Writer Bgzf.Reader Bgzf.ReaderProofs Bgzf.WriterProofs
-  Bgzf.Inflate Bgzf.InflateProofs Bgzf.InflateFuel Bgzf.InflateHuffman Bgzf.InflateFixed Bgzf.InflateTokens Bgzf.InflateBody Bgzf.InflateDynamic Bgzf.Level0Proofs.
+  Bgzf.Inflate Bgzf.InflateProofs Bgzf.InflateFuel Bgzf.InflateHuffman Bgzf.InflateFixed Bgzf.InflateTokens Bgzf.InflateBody Bgzf.InflateDynamic Bgzf.Level0Proofs
+  Bgzf.InflateSpec Bgzf.InflateStream Bgzf.InflateSound Bgzf.InflateReader Bgzf.InflateEnc.
 Import ListNotations.
 Open Scope N_scope.
 
@@ -462,6 +463,87 @@ Proof.
 Qed.
 Print Assumptions c01_reader_rejects_isize_mismatch.
 
+(* ---- the DEFLATE stream syntax as a declarative specification (NV.Bgzf.InflateSpec):
+   [deflate_denotes c out] = the bits of c begin with a sequence of stored / fixed / dynamic blocks
+   (BFINAL on the last one only; dynamic headers with any HCLEN and the repeat codes 16 / 17 / 18;
+   canonical codes; LZ77 tokens valid w.r.t. the output so far, also across blocks) that stands for
+   out.  The specification does not mention the inflater. ---- *)
+
+(* COMPLETENESS, multi-block streams and the full dynamic header: every byte string that is a
+   DEFLATE stream for out is inflated to out (under any limit that out fits) -- whatever a
+   conforming compressor, e.g. zlib-rs at levels 1..9, chose to emit *)
+Theorem c01_inflate_complete :
+  (forall c out limit, Forall is_byte c -> deflate_denotes c out -> lenN out <= limit ->
+     exists rest, inflate_raw limit c = Some (out, rest)) /\
+  (forall c out, Forall is_byte c -> deflate_denotes c out -> inflate c (lenN out) = Some out).
+Proof. split; [exact inflate_raw_complete|exact inflate_complete]. Qed.
+Print Assumptions c01_inflate_complete.
+
+(* SOUNDNESS: whatever the inflater accepts is a well-formed DEFLATE stream denoting what it
+   returns; together: the inflater decides the specification, and a stream denotes one string *)
+Theorem c01_inflate_sound :
+  (forall limit c out rest, Forall is_byte c -> inflate_raw limit c = Some (out, rest) -> deflate_denotes c out) /\
+  (forall c n out, Forall is_byte c -> (inflate c n = Some out <-> deflate_denotes c out /\ lenN out = n)) /\
+  (forall c out1 out2, Forall is_byte c -> deflate_denotes c out1 -> deflate_denotes c out2 -> out1 = out2).
+Proof.
+  split; [exact inflate_raw_sound|]. split; [exact inflate_iff_denotes|exact deflate_denotes_functional].
+Qed.
+Print Assumptions c01_inflate_sound.
+
+(* READER ACCEPTANCE IMPLIES A WELL-FORMED MEMBER: a frame the reader model accepts has the gzip/BC
+   header parse_frame checks, CDATA that are a well-formed DEFLATE stream denoting exactly the
+   bytes returned, ISIZE = their number <= 65536 and CRC32 = their CRC-32; and conversely every such
+   frame is accepted and yields those bytes *)
+Theorem c01_reader_accepts_only_wellformed :
+  (forall frame bs d, Forall is_byte frame -> parse_block inflate frame = Ok (bs, d) ->
+     exists cdata crc isize,
+       parse_frame frame = Ok (bs, cdata, crc, isize) /\
+       deflate_denotes cdata d /\ lenN d = isize /\ isize <= 65536 /\ crc32 d = crc) /\
+  (forall frame bs cdata crc isize d,
+     Forall is_byte frame -> parse_frame frame = Ok (bs, cdata, crc, isize) ->
+     deflate_denotes cdata d -> lenN d = isize -> crc32 d = crc ->
+     parse_block inflate frame = Ok (bs, d)).
+Proof. split; [exact reader_accepts_only_wellformed|exact reader_accepts_wellformed]. Qed.
+Print Assumptions c01_reader_accepts_only_wellformed.
+
+(* THE READER SIDE OF H_rt IS DISCHARGED: for every compressor that is conforming (its output is a
+   byte string that is a DEFLATE stream denoting its input -- a statement about the compressor
+   alone) the round-trip premise holds for the executable inflater, at every level; with level 0 =
+   deflate_stored the whole round trip follows.  The reader never mis-decodes what any conforming
+   compressor wrote. *)
+Theorem c01_reader_decodes_conforming :
+  forall deflate, conforming deflate -> H_rt deflate inflate.
+Proof. exact conforming_roundtrip. Qed.
+Print Assumptions c01_reader_decodes_conforming.
+
+Theorem c01_roundtrip_conforming_compressor :
+  forall deflate lvl,
+    (forall x, lenN x <= 65495 -> deflate 0 x = deflate_stored x) -> conforming deflate ->
+  forall ops e,
+    let o := run_script deflate lvl ops e in
+    reader_read_to_end inflate (o_sink o) = (accepted ops (o_results o), Ok tt).
+Proof.
+  intros deflate lvl H0 Hc.
+  exact (writer_reader_roundtrip deflate lvl (l0_bound_of_stored deflate H0) inflate
+           (conforming_roundtrip deflate Hc) inflate_eof_cdata).
+Qed.
+Print Assumptions c01_roundtrip_conforming_compressor.
+
+(* THE ENCODER INTO THE SPECIFICATION.  [deflate_blocks] (the function the correspondence run, kind
+   ms, compares byte for byte with an independent Rust encoder whose output the real reader decodes)
+   maps every non-empty list of valid blocks -- stored chunks of <= 65535 bytes; fixed blocks of
+   valid tokens; dynamic blocks with an acceptable header whose symbols have codes -- to a byte
+   string that is a DEFLATE stream for the concatenated meaning of the blocks, and the inflater
+   decodes it to that meaning *)
+Theorem c01_encoder_in_spec :
+  (forall bs off out, bs <> [] -> stream_valid off bs out ->
+     stream_denotes off (enc_stream off bs) out (norm_stream off bs) (stream_out bs out)) /\
+  (forall bs, bs <> [] -> stream_valid 0 bs [] ->
+     deflate_denotes (deflate_blocks bs) (stream_out bs []) /\
+     inflate (deflate_blocks bs) (lenN (stream_out bs [])) = Some (stream_out bs [])).
+Proof. split; [exact enc_stream_denotes|exact inflate_deflate_blocks]. Qed.
+Print Assumptions c01_encoder_in_spec.
+
 (* ---- non-vacuity: the three hypotheses are jointly satisfiable, and a concrete script ---- *)
 Definition toy_deflate (_ : N) (x : list N) : list N := 1 :: x.
 Definition toy_inflate (c : list N) (n : N) : option (list N) :=
@@ -521,3 +603,21 @@ Proof. vm_compute. reflexivity. Qed.
 Example c01_fixed_lit_example :
   deflate_fixed_lit [110; 111; 111; 100; 108; 101; 115] = [203; 203; 207; 79; 201; 73; 45; 6; 0].
 Proof. vm_compute. reflexivity. Qed.
+
+(* a three-block stream (fixed, stored, dynamic with HCLEN = 12 and the repeat codes 16 and 18, a
+   match reaching back into the first block) is a DEFLATE stream of the specification *)
+Definition ex_ms_blocks : list block :=
+  [BFixed [TLit 97]; BStored [] [98; 99];
+   BDynamic (mk_dyn_hdr 258 4 [2; 0; 2; 0; 0; 0; 0; 0; 0; 0; 0; 3; 0; 2; 0; 3]%nat
+               [CRep18 97; CLen 3; CRep16 6; CRep18 138; CRep18 14; CLen 4; CLen 4; CLen 2; CRep16 3])
+            [TLit 97; TLit 98; TMatch 3 1; TMatch 3 2; TMatch 3 4; TLit 103; TMatch 3 3]].
+
+Example c01_multiblock_example :
+  stream_out ex_ms_blocks [] = [97; 98; 99; 97; 98; 98; 98; 98; 98; 98; 98; 98; 98; 98; 103; 98; 98; 103] /\
+  inflate (deflate_blocks ex_ms_blocks) 18 = Some (stream_out ex_ms_blocks []) /\
+  deflate_denotes (deflate_blocks ex_ms_blocks) (stream_out ex_ms_blocks []).
+Proof.
+  assert (H : inflate (deflate_blocks ex_ms_blocks) 18 = Some (stream_out ex_ms_blocks [])) by (vm_compute; reflexivity).
+  split; [vm_compute; reflexivity|]. split; [exact H|].
+  exact (proj1 (inflate_sound _ _ _ (pack_bits_bytes _ _) H)).
+Qed.
